@@ -433,7 +433,7 @@ class NestedQLBlock(ProductionTpl):
         src_end = body.span.end
         buffer = body.span.buffer.encode('utf-8')
         text = buffer[src_start:src_end].decode('utf-8').strip().strip('}{\n')
-        return textwrap.dedent(text).strip()
+        return textwrap.dedent(text).strip('\n')
 
     def _block(self, lbrace, cmdlist, sc2, rbrace):
         # LBRACE NestedQLBlock OptSemicolons RBRACE
